@@ -497,3 +497,60 @@ def c18_replay(ctx, path):
     # a saved transcript mismatch names (seed, worker, round); schedule-dependent: re-run that worker's rounds under TSan
     return False
 REPLAYERS["C18"] = c18_replay
+
+
+# ---------------------------------------------------------------- C20
+harness_job("C20_helper", extra_link="")
+BUILD_JOBS.append(lambda: ck.build_lib("asan", tools=True))
+
+
+def c20_wrapper():
+    bdir = ck.build_lib("asan", tools=True)
+    helper = ck.build_harness("C20_helper", "asan", extra_link="")
+    w = os.path.join(ck.CACHE, "bin", "c20-" + os.path.basename(bdir) + "-" + os.path.basename(helper)[-16:] + ".sh")
+    os.makedirs(os.path.dirname(w), exist_ok=True)
+    with open(w + ".tmp", "w") as f:
+        f.write(f"#!/bin/sh\nexec python3-vt {VERIF}/cli/c20_cli.py --tools {bdir}/tools --helper {helper} \"$@\"\n")
+    os.chmod(w + ".tmp", 0o755)
+    os.rename(w + ".tmp", w)
+    return w
+
+
+REPLAYERS["C20"] = lambda ctx, path: P.harness_replay_fn(c20_wrapper(), "C20")(path)
+
+
+@P.check("C20")
+def c20(ctx):
+    """command-line tools: Hypothesis-driven subprocess tests of the ASan-built tools"""
+    rule = ("Hypothesis (seeded from VERIF_SEED, database off) drives the tools built from /repo with ASan/UBSan: (1) jwt-verify with token lists whose length and number of failing "
+            "tokens are drawn from {0..3, 20, 254-257, 300, 511-513, 768, 1024, 1100} and [0,1100], as arguments and on stdin, with and without -q, plus the fixed boundary lists "
+            "255/256/257/512 failing tokens: exit status 0 iff every token verified; (2) jwt-generate with a key file (oct, EC, RSA, Ed25519 [thorough: + HS512, P-384, P-521, Ed448, "
+            "secp256k1, PS256], with and without alg attribute) and every option of the usage text in each getopt spelling (-a X, -aX, --algorithm=X, --algorithm X; likewise "
+            "-k -c -j; -n -q -v in short and long form) prints a token that the reference verifier accepts and that jwt-verify accepts with the same key file and option "
+            "spellings, under JWT_CRYPTO=openssl and gnutls; (3) key2jwk over 1-8 freshly generated keys per invocation (RSA, RSA-PSS, P-256/384/521, secp256k1, Ed25519, Ed448, "
+            "private and public PEM, oct files of 32-512 bytes; EC keys optionally forced to have a leading-zero coordinate): output parses, each JWK denotes the same key with "
+            "fixed-width EC x, y, d (own decoder), jwk2key writes back files with the identical key; -h/--help/-l/--list exit 0. Any sanitizer report in a tool run is a violation. "
+            "Non-trivial = list with failing tokens (>=255 counted separately), short-spelled options with arguments, EC keys with a leading-zero coordinate, every conversion; "
+            "distinct by hash of the case.")
+    assumptions = ["tools run with detect_leaks=0 (they exit without freeing by design; the exit status is the oracle)", "C20_helper (OpenSSL + vlib) generates keys and judges key equality"]
+    w = c20_wrapper()
+    nrep = P.run_replay_tier(ctx, w)
+    workers = ck.NCPU
+    results, wd = ck.run_workers(w, ctx.pid, ctx.tier, ctx.seed, workers, known=ctx.known, timeout=3000)
+    P.collect_harness(ctx, results, w)
+    for r in results:
+        if r["rc"] not in (0, 3) and not r["timed_out"]:
+            log("C20 worker failed rc=", r["rc"], r["stderr"][-1500:])
+            ctx.broken = True
+    m = ck.merge_stats(results)
+    for k, v in m["known_hits"].items():
+        e = ck.known_match(ctx.known, ctx.pid, k)
+        if e and k not in ctx.printed_known:
+            ctx.printed_known.add(k); ctx.known_hits[k] = v
+            print(f"KNOWN-FINDING: property={ctx.pid} {e['what']}", flush=True)
+    cov = {"evaluations": m["evaluations"], "distinct_nontrivial": len(m["fps"]), "rule": rule, "samples": m["samples"][:10], "classes": m["classes"], "workers": workers,
+           "replay_tier_inputs": nrep}
+    if not ctx.violations and not getattr(ctx, "broken", False):
+        shutil.rmtree(wd, ignore_errors=True)
+    return P.finish(ctx, "exploration", cov, assumptions, 20)
+log = ck.log
